@@ -118,7 +118,20 @@ def gen_case(rng):
             ops.append(['buffer', rng.choice([1, 2, 5])])
     n = rng.randrange(3, 15)
     inputs = [[rng.randrange(2) if two else 0, rng.randrange(6)] for _ in range(n)]
-    return {'ops': ops, 'inputs': inputs, 'salt': rng.randrange(1 << 16), 'two_entries': two}
+    # the consumer behind gather(): plain function, or a coroutine function that takes longer for smaller values (so that
+    # elements overtake each other in it if gather() does not wait for it)
+    return {'ops': ops, 'inputs': inputs, 'salt': rng.randrange(1 << 16), 'two_entries': two,
+            'sink': rng.choice(['sync', 'sync', 'coro', 'coro'])}
+
+
+def make_sink(case, got):
+    if case.get('sink', 'sync') == 'sync':
+        return got.append
+
+    async def consume(x):
+        await asyncio.sleep((4 - F.fsum(x) % 5) / 1000.0 if F.fsum(x) % 5 < 4 else 0)
+        got.append(x)
+    return consume
 
 
 def build(case, dask, sink):
@@ -173,7 +186,7 @@ async def run_local(case):
     """the local twin, on the same loop (asynchronous=True so that buffer works without a thread)"""
     from tornado.ioloop import IOLoop
     got = []
-    a, b = _build_local_async(case, got.append)
+    a, b = _build_local_async(case, make_sink(case, got))
     refs = []
     for k, (e, v) in enumerate(case['inputs']):
         ref = ProbeRef('l%d' % k, None, IOLoop.current())
@@ -223,18 +236,21 @@ def _build_local_async(case, sink):
     return a, b
 
 
-async def run_dask(case, expect_n):
+async def run_dask(case, expect_n, patient=False):
     from tornado.ioloop import IOLoop
     got = []
-    a, b = build(case, True, got.append)
+    a, b = build(case, True, make_sink(case, got))
     refs = []
     for k, (e, v) in enumerate(case['inputs']):
         ref = ProbeRef('d%d' % k, None, IOLoop.current())
         refs.append(ref)
         await (a if e == 0 else b).emit(v, metadata=[{'ref': ref}])
-    t0 = time.time()
-    while len(got) < expect_n and time.time() - t0 < 20:
+    t0 = t_last = time.time()
+    n_last = len(got)
+    while len(got) < expect_n and time.time() - t0 < 20 and (patient or time.time() - t_last < 4):
         await asyncio.sleep(0.01)
+        if len(got) != n_last:          # still making progress
+            n_last, t_last = len(got), time.time()
     await asyncio.sleep(0.1)       # anything extra would show up now
     return got, refs
 
@@ -252,9 +268,16 @@ async def shard_main(seed, tier, shard, out):
             case = gen_case(rng)
             DELAYS['salt'] = case['salt']
             out['evaluations'] += 1
+            stop_after = False
             try:
                 lgot, lrefs = await asyncio.wait_for(run_local(case), 30)
                 dgot, drefs = await asyncio.wait_for(run_dask(case, len(lgot)), 60)
+                if len(dgot) < len(lgot):
+                    # nothing arrived for 4 s: run the twin once more and give it the full 20 s before calling results lost
+                    ssinks._global_sinks.clear()
+                    C['patient_reruns'] = C.get('patient_reruns', 0) + 1
+                    dgot, drefs = await asyncio.wait_for(run_dask(case, len(lgot), patient=True), 60)
+                    stop_after = len(dgot) < len(lgot)
             except asyncio.TimeoutError:
                 out['inconclusive'].append('case %d: watchdog' % k)
                 continue
@@ -273,6 +296,8 @@ async def shard_main(seed, tier, shard, out):
                 else:
                     key = 'C20:results-differ'
                 out['violations'].append({'key': key, 'what': 'local %s, dask %s' % (ln[:20], dn[:20]), 'case': case})
+                if stop_after:
+                    break           # a confirmed loss costs 24 s of waiting: one witness per shard is enough
             else:
                 for lr, dr in zip(lrefs, drefs):
                     C['counter_pairs_compared'] = C.get('counter_pairs_compared', 0) + 1
@@ -286,6 +311,8 @@ async def shard_main(seed, tier, shard, out):
                         break
             if len(lgot) >= 3:
                 out['keys'].append(progs.prog_key(case, None))
+            if case.get('sink') == 'coro':
+                C['cases_with_asynchronous_consumer'] = C.get('cases_with_asynchronous_consumer', 0) + 1
             for op in case['ops']:
                 out['sets'].setdefault('ops_seen', set()).add(op[0] + (':' + str(op[1]) if op[0] == 'accumulate' else ''))
             if len(out['samples']) < 2 and len(lgot) >= 3:
